@@ -15,6 +15,10 @@ pub struct MsgCase {
     pub msg: GenMsg,
     pub crlf: bool,
     pub wrapper: bool,
+    /// indices of fields whose exposed values are not compared (contents injected without a
+    /// component list); key and occurrence are still required
+    #[serde(default)]
+    pub any_value: Vec<usize>,
 }
 
 /// Put every field into the library's own canonical spelling (field-level
@@ -63,10 +67,43 @@ pub fn error_tag(e: &LibErr) -> String {
 }
 
 pub fn generate(mt: &str, src: &mut Src) -> MsgCase {
-    let msg = gen_valid_msg(mt, src);
+    let mut msg = gen_valid_msg(mt, src);
+    let mut any_value: Vec<usize> = Vec::new();
+    // one time in four a multi-option slot gets a content that is valid for the option written and
+    // shaped like another option of its family (the value components of that field are then not compared,
+    // acceptance and byte-exact reproduction are)
+    if src.chance(1, 4) {
+        let slots: Vec<usize> = msg
+            .fields
+            .iter()
+            .enumerate()
+            .filter(|(_, f)| f.n_options >= 2)
+            .map(|(i, _)| i)
+            .collect();
+        if !slots.is_empty() {
+            let i = slots[src.below(slots.len())];
+            if let Some(sp) = crate::fieldkit::spec_of_tag(&msg.fields[i].tag) {
+                let fits: Vec<&str> = crate::props::c14::AMBIGUOUS
+                    .iter()
+                    .copied()
+                    .filter(|c| sp.g.verdict(c) == crate::spec::Verdict::MustAccept)
+                    .collect();
+                if !fits.is_empty() {
+                    msg.fields[i].content = fits[src.below(fits.len())].to_string();
+                    msg.fields[i].comps = Vec::new();
+                    any_value.push(i);
+                }
+            }
+        }
+    }
     let crlf = src.chance(1, 3);
     let wrapper = src.flip();
-    MsgCase { msg, crlf, wrapper }
+    MsgCase {
+        msg,
+        crlf,
+        wrapper,
+        any_value,
+    }
 }
 
 pub fn oracle(c: &MsgCase, obs: &mut Obs) -> Vec<Violation> {
@@ -145,7 +182,7 @@ pub fn oracle(c: &MsgCase, obs: &mut Obs) -> Vec<Violation> {
     let mut occ = Vec::new();
     json_occurrences(&b.json, &mut Vec::new(), &mut occ);
     let mut used = vec![false; occ.len()];
-    for f in &msg.fields {
+    for (fi, f) in msg.fields.iter().enumerate() {
         // candidates: unused occurrences of that tag in that sequence occurrence
         // (an untagged option enum is keyed by the bare field number: `25` for `25P`)
         let cands: Vec<usize> = occ
@@ -160,6 +197,10 @@ pub fn oracle(c: &MsgCase, obs: &mut Obs) -> Vec<Violation> {
             .collect();
         if cands.is_empty() {
             out.push(viol(format!("C03|MT{}|not-exposed|{}", mt, f.tag), format!("field {} (sequence path {:?}) written but not exposed under that key/occurrence in {}", f.tag, f.path, b.json)));
+            continue;
+        }
+        if c.any_value.contains(&fi) {
+            used[cands[0]] = true;
             continue;
         }
         // keys of one tag are not ordered in the JSON object (`34F_credit` sorts before `34F_debit`): any
@@ -195,7 +236,7 @@ pub fn oracle(c: &MsgCase, obs: &mut Obs) -> Vec<Violation> {
 }
 
 pub fn run(ctx: &Ctx) {
-    ctx.add_rule("per message type (30): messages generated from the independent layout table (harness/src/layout.rs) — optional subsets, option letters, 0..max repetitions with boundary bias, field contents from the field format table with boundary lengths/values, LF/CRLF, wrapper/test style; non-trivial = has an optional field, a second sequence occurrence or a multi-option slot; distinct by text");
+    ctx.add_rule("per message type (30): messages generated from the independent layout table (harness/src/layout.rs) — optional subsets, option letters, 0..max repetitions with boundary bias, field contents from the field format table with boundary lengths/values (one message in four carries, in a multi-option slot, a content shaped like another option of the family), LF/CRLF, wrapper/test style; non-trivial = has an optional field, a second sequence occurrence or a multi-option slot; distinct by text");
     ctx.assume("layout table transcribed from struct docs / documented parse order of /repo/src/messages and SR2025; where they differ the library's documentation is followed");
     ctx.assume("numeric components are first put into the field's own canonical spelling by that field's parse/to_swift_string; messages containing a field whose own parser mishandles the content are excluded (counted) — that is C05's finding");
     let to_json = |c: &MsgCase| serde_json::to_value(c).unwrap();
